@@ -8,7 +8,7 @@ namespace Btc
 
 inductive Outcome where
   | ok (v : Nat)        -- the provider answered `v`
-  | empty               -- returned False ("Received empty response")
+  | empty               -- returned False, or nothing at all - None (repair F109) ("Received empty response")
   | raises              -- raised an exception other than AttributeError
   | attrErr             -- raised AttributeError (not recorded as an error)
   | skipped             -- no URL / method not implemented / API key needed
